@@ -388,11 +388,17 @@ type verifHoldRealSuite struct {
 	snapmgrBaseTest
 }
 
+// gocheck fixture hooks are overridden: a fresh snapmgrBaseTest fixture is set up every few histories (a state
+// that accumulates hundreds of finished changes makes Settle slow)
+func (s *verifHoldRealSuite) SetUpTest(c *C)    {}
+func (s *verifHoldRealSuite) TearDownTest(c *C) {}
+
 func (s *verifHoldRealSuite) TestVerifHoldRealRun(c *C) {
 	out := os.Getenv("VERIF_OUT")
 	n := verifHoldEnvInt("VERIF_N", 5)
 	length := verifHoldEnvInt("VERIF_LEN", 14)
 	seed := verifHoldEnvInt("VERIF_SEED", 1)
+	perFixture := verifHoldEnvInt("VERIF_PER_FIXTURE", 4)
 	f, err := os.Create(out)
 	c.Assert(err, IsNil)
 	defer f.Close()
@@ -404,22 +410,28 @@ func (s *verifHoldRealSuite) TestVerifHoldRealRun(c *C) {
 	old := verifHoldReal
 	verifHoldReal = map[string]string{"a": "some-snap", "b": "some-other-snap", "c": "services-snap"}
 	defer func() { verifHoldReal = old }()
-	d.st = s.state
 	d.now = verifHoldT0
 	defer snapstate.MockTimeNow(func() time.Time { return d.now })()
 	r := rand.New(rand.NewSource(int64(seed)*104729 + 15))
-	s.fakeStore.refreshRevnos = map[string]snap.Revision{}
 	refreshes := 0
-
-	st := s.state
-	st.Lock()
-	defer st.Unlock()
-	tr := config.NewTransaction(st)
-	c.Assert(tr.Set("core", "experimental.gate-auto-refresh-hook", true), IsNil)
-	tr.Commit()
-
 	nextRev := 20
+
 	for i := 0; i < n; i++ {
+		if i%perFixture == 0 {
+			if i > 0 {
+				s.state.Unlock()
+				s.snapmgrBaseTest.TearDownTest(c)
+			}
+			s.snapmgrBaseTest.SetUpTest(c)
+			s.fakeStore.refreshRevnos = map[string]snap.Revision{}
+			s.state.Lock()
+			tr := config.NewTransaction(s.state)
+			c.Assert(tr.Set("core", "experimental.gate-auto-refresh-hook", true), IsNil)
+			tr.Commit()
+			nextRev = 20
+		}
+		st := s.state
+		d.st = st
 		d.caseN = i
 		d.now = verifHoldT0
 		st.Set("snaps-hold", nil)
@@ -478,6 +490,10 @@ func (s *verifHoldRealSuite) TestVerifHoldRealRun(c *C) {
 				d.emit("Tick", map[string]interface{}{"d": dt}, nil)
 			}
 		}
+	}
+	if n > 0 {
+		s.state.Unlock()
+		s.snapmgrBaseTest.TearDownTest(c)
 	}
 	d.w.Flush()
 	fmt.Printf("VERIF-STATS {\"traces\":%d,\"calls\":%d,\"refused\":%d,\"distinct_hold_states\":%d,\"real_refreshes\":%d}\n", n, d.calls, d.refused, len(d.distinct), refreshes)
